@@ -416,7 +416,16 @@ def run(spec, res, a):
                         "compiler_output": out[-4000:]}, False)
         write_evidence(res, spec, "harness build failed")
         return 1
-    gen_tables()
+    # the translator reads /repo's source text and compiled tables; when the source no longer has the shape it reads (a switch
+    # folded into a helper, a table renamed) it fails.  That is a broken tie, not a broken check: the generated files of the
+    # last good run stay in place (they describe the code as it was), the theorems and the judge are built against them, and
+    # the harness is run to look for an input on which the changed code now differs
+    translator_broken = None
+    try:
+        gen_tables()
+    except Broken as e:
+        translator_broken = str(e)[-1500:]
+        log("translator failed; continuing with the generated files of the last good run:", translator_broken[-300:])
     # 2. theorems re-checked against what the code says now
     targets = spec["targets"]
     ok, mlog, cmd, dt = coq_make(targets + spec.get("judge_targets", []), timeout=spec.get("make_timeout", 1500))
@@ -479,7 +488,10 @@ def run(spec, res, a):
     rc = 0
     if "explore" in spec:
         rc = spec["explore"](spec, res, a)
-    write_evidence(res, spec)
+    if translator_broken and not any(fi for _, fi in res.violations):
+        violation(res, {"property": prop, "broken": "the translator (harness/cmd/gentables) can no longer read /repo's source as before; the generated part of the model is that of the last good run",
+                        "translator_output": translator_broken}, False)
+    write_evidence(res, spec, "translator failed" if translator_broken else "ok")
     return 1 if (res.violations or rc) else 0
 
 
